@@ -58,7 +58,8 @@ Print Assumptions C14_translation_agrees.
 (* 3. DESIGN.md's obligation `forallb checks_first Gen.setter_table = true` is FALSE of the unchanged
       tree.  The setters that fail are exactly these (each is a recorded finding with a proposed
       repair, see notes/C14.md; none is white-listed: the lists are compared with what the analysis
-      computes on the table generated from the working tree): *)
+      computes on the table generated from the working tree, and every failing setter is refuted by a
+      counter-execution of the model): *)
 Definition excluded_setters : list string :=
   ["Cell.atom_density"; "Cell.mass_density";       (* F-C14-density-overflow *)
    "Importance.all";                               (* F-C14-importance-all-keyerror *)
@@ -69,20 +70,21 @@ Definition excluded_setters : list string :=
 Definition excluded_generated : list string :=
   ["Cell.geometry"].                               (* F-C14-geometry-partial-link *)
 
-Theorem C14_excluded_exact :
-  failing E setter_table = excluded_setters /\ failing E generated_table = excluded_generated.
-Proof. vm_compute. split; reflexivity. Qed.
-Print Assumptions C14_excluded_exact.
+(* the lists name every setter that fails the analysis on the working tree (a name whose setter has been
+   repaired since may linger: the check reports it; a setter that fails and is not named breaks this) *)
+Theorem C14_excluded_cover :
+  covers (excluded_setters ++ excluded_generated) (failing E (setter_table ++ generated_table)) = true.
+Proof. vm_compute. reflexivity. Qed.
+Print Assumptions C14_excluded_cover.
 
-(* _refuted: every excluded setter has a counter-execution in the model — it raises after it has
-   written (the adversary is found by computation in a finite family, Proofs/SetterProofs.family) *)
+(* _refuted: every setter that fails the analysis has a counter-execution in the model — it raises
+   after it has written (the adversary is found by computation in a finite family,
+   Proofs/SetterProofs.family): the analysis is not "too coarse" on any entry of the table *)
 Theorem C14_all_setters_refuted :
-  forallb (fun p => checks_first E (snd p)) (setter_table ++ generated_table) = false /\
-  forall name, In name (excluded_setters ++ excluded_generated) ->
+  forall name, In name (failing E (setter_table ++ generated_table)) ->
     exists ir a, In (name, ir) (setter_table ++ generated_table) /\
                  is_err (snd (exec E ir [] a)) = true /\ fst (exec E ir [] a) <> [].
 Proof.
-  split; [vm_compute; reflexivity|].
   apply (refuted_of_decided E (setter_table ++ generated_table)); vm_compute; reflexivity.
 Qed.
 Print Assumptions C14_all_setters_refuted.
@@ -96,16 +98,15 @@ Theorem C14_all_setters_partial :
     ~ In name (excluded_setters ++ excluded_generated) ->
     is_err (snd (exec E ir s a)) = true -> fst (exec E ir s a) = s.
 Proof.
-  apply (table_atomic E (setter_table ++ generated_table)). vm_compute. reflexivity.
+  apply (table_atomic_cover E (setter_table ++ generated_table)). exact C14_excluded_cover.
 Qed.
 Print Assumptions C14_all_setters_partial.
 
 (* the side condition is satisfiable, and by most of the table *)
 Example C14_all_setters_partial_nonvacuous :
-  List.length (filter (fun p => negb (mem_s (fst p) (excluded_setters ++ excluded_generated)))
-                      (setter_table ++ generated_table)) = 65 /\
-  List.length (setter_table ++ generated_table) = 74.
-Proof. vm_compute. split; reflexivity. Qed.
+  60 <= List.length (filter (fun p => negb (mem_s (fst p) (excluded_setters ++ excluded_generated)))
+                            (setter_table ++ generated_table)).
+Proof. vm_compute. repeat constructor. Qed.
 Print Assumptions C14_all_setters_partial_nonvacuous.
 
 (* ---------------------------------------------------------------------------------------------- *)
@@ -213,25 +214,29 @@ Print Assumptions C14_later_edits_nonvacuous.
    HalfSpace.left to UnitHalfSpace: the later valid `half_space.left = <HalfSpace>` is then rejected
    too, whereas it is accepted when the rejected call is deleted (DESIGN.md D16, property C17) *)
 Theorem C14_later_edits_refuted :
+  has_latch tmpl_pointer = true ->
   exists cs bad cs' w,
     wcall_cf T bad /\
     is_err (snd (wstep T (fst (wrun T cs w)) bad)) = true /\
     snd (wrun T (cs ++ cs') w) <> remove_at (List.length cs) (snd (wrun T (cs ++ bad :: cs') w)).
 Proof.
-  destruct (find (fun d => pkey d =? "HalfSpace.left") prop_table) as [d|] eqn:Ed; [|discriminate].
-  exists [], (WGen 0 d "UnitHalfSpace" (adversary KInt 99 0 BAllTrue)),
-         [WGen 0 d "HalfSpace" (adversary (KObj "HalfSpace") 99 0 BAllTrue)], (mk_world [] []).
-  vm_compute in Ed. inversion Ed. subst d.
-  split; [|split].
-  - intros ts. apply template_checks_first; vm_compute; reflexivity.
-  - vm_compute. reflexivity.
-  - vm_compute. discriminate.
+  first
+  [ solve [intros H; vm_compute in H; discriminate H]      (* the template has been repaired: nothing latches *)
+  | intros _;
+    destruct (find (fun d => pkey d =? "HalfSpace.left") prop_table) as [d|] eqn:Ed; [|discriminate];
+    exists [], (WGen 0 d "UnitHalfSpace" (adversary KInt 99 0 BAllTrue)),
+           [WGen 0 d "HalfSpace" (adversary (KObj "HalfSpace") 99 0 BAllTrue)], (mk_world [] []);
+    vm_compute in Ed; inversion Ed; subst d;
+    split; [|split];
+    [ intros ts; apply template_checks_first; vm_compute; reflexivity
+    | vm_compute; reflexivity
+    | vm_compute; discriminate ] ].
 Qed.
 Print Assumptions C14_later_edits_refuted.
 
 (* the generated properties that latch, in the working tree *)
 Theorem C14_latching_setters :
   map pkey (filter (fun d => latching (template_of tmpl_val_node tmpl_pointer d) d) prop_table)
-  = ["HalfSpace.left"; "HalfSpace.right"; "Surface.periodic_surface"].
+  = if has_latch tmpl_pointer then ["HalfSpace.left"; "HalfSpace.right"; "Surface.periodic_surface"] else [].
 Proof. vm_compute. reflexivity. Qed.
 Print Assumptions C14_latching_setters.
